@@ -1,6 +1,6 @@
 (* Proofs about the parser model (Model/Parser.v). *)
 From PG Require Import Lib.Strs Model.AllOf Model.Parser Proofs.AllOf Gen.T_C02.
-From Coq Require Import Lia Arith PeanoNat.
+From Coq Require Import Lia Arith PeanoNat Permutation.
 
 (* ------------------------------------------------------------------ the declared semantics is fuel-monotone,
    hence a (partial) function of the document alone *)
@@ -13,25 +13,25 @@ Proof.
   rewrite (H _ _ E). apply IH, Hm.
 Qed.
 
-Lemma decl_node_mono1 : forall f S nd m, decl_node f S nd = Some m -> decl_node (Datatypes.S f) S nd = Some m.
+Lemma decl_node_mono1 : forall f S pn nd m, decl_node f S pn nd = Some m -> decl_node (Datatypes.S f) S pn nd = Some m.
 Proof.
-  induction f as [|f IH]; intros S nd m H; [discriminate|].
+  induction f as [|f IH]; intros S pn nd m H; [discriminate|].
   destruct nd; try exact H.
   - (* Ref *) simpl in H |- *. destruct (alookup n S) as [nd'|]; [apply IH, H | exact H].
-  - (* AllOf *) change (decl_members (decl_node (Datatypes.S f) S) l [] = Some m).
-    change (decl_members (decl_node f S) l [] = Some m) in H.
+  - (* AllOf *) change (decl_members (decl_node (Datatypes.S f) S None) l [] = Some m).
+    change (decl_members (decl_node f S None) l [] = Some m) in H.
     eapply decl_members_mono; [|exact H]. intros x mx Hx. apply IH, Hx.
 Qed.
 
-Lemma decl_node_mono : forall f g S nd m, (f <= g)%nat -> decl_node f S nd = Some m -> decl_node g S nd = Some m.
+Lemma decl_node_mono : forall f g S pn nd m, (f <= g)%nat -> decl_node f S pn nd = Some m -> decl_node g S pn nd = Some m.
 Proof.
-  intros f g S nd m Hle H. induction Hle; [exact H|]. apply decl_node_mono1, IHHle.
+  intros f g S pn nd m Hle H. induction Hle; [exact H|]. apply decl_node_mono1, IHHle.
 Qed.
 
-Lemma decl_node_functional : forall f g S nd m1 m2,
-  decl_node f S nd = Some m1 -> decl_node g S nd = Some m2 -> m1 = m2.
+Lemma decl_node_functional : forall f g S pn nd m1 m2,
+  decl_node f S pn nd = Some m1 -> decl_node g S pn nd = Some m2 -> m1 = m2.
 Proof.
-  intros f g S nd m1 m2 H1 H2.
+  intros f g S pn nd m1 m2 H1 H2.
   apply (decl_node_mono f (Nat.max f g)) in H1; [|lia].
   apply (decl_node_mono g (Nat.max f g)) in H2; [|lia].
   congruence.
@@ -41,9 +41,9 @@ Lemma declared_f_functional : forall f g S n d1 d2,
   declared_f f S n = Some d1 -> declared_f g S n = Some d2 -> d1 = d2.
 Proof.
   unfold declared_f. intros f g S n d1 d2 H1 H2. destruct (alookup n S) as [nd|]; [|discriminate].
-  destruct (decl_node f S nd) as [m1|] eqn:E1; [|discriminate].
-  destruct (decl_node g S nd) as [m2|] eqn:E2; [|discriminate].
-  simpl in *. rewrite (decl_node_functional _ _ _ _ _ _ E1 E2) in H1. congruence.
+  destruct (decl_node f S (Some n) nd) as [m1|] eqn:E1; [|discriminate].
+  destruct (decl_node g S (Some n) nd) as [m2|] eqn:E2; [|discriminate].
+  simpl in *. rewrite (decl_node_functional _ _ _ _ _ _ _ E1 E2) in H1. congruence.
 Qed.
 
 (* ------------------------------------------------------------------ equality deciders are sound *)
@@ -342,7 +342,7 @@ Section Mono.
       - pose proof (le_resolve_ref n s) as H. destruct (resolve_ref S rec n s) as [r s1]. simpl in H.
         destruct name as [nm|]; [|exact H]. destruct (nonempty nm); [|exact H].
         destruct (match i_name r with Some rn => _ | None => false end); [exact H|].
-        destruct (registered nm s1); [exact H|]. simpl. eapply le_trans; [exact H | apply le_reg].
+        destruct (registered nm s1 && negb (cut_off nm s1)); [exact H|]. simpl. eapply le_trans; [exact H | apply le_reg].
       - pose proof (le_parse_props ps (match name with Some n => if nonempty n then Some (cls n) else None | None => None end) [] s) as H.
         destruct (parse_props S rec ps _ [] s) as [props s1]. simpl in H.
         eapply le_trans; [exact H|]. eapply le_trans; [apply le_bump | apply le_finish].
@@ -402,11 +402,11 @@ Section Mono.
     eapply le_trans; [|apply IH]. eapply le_trans; [apply le_set_state | apply mono_parse_schema].
   Qed.
 
-  Lemma le_build_iter : forall k fuel s, le s (build_iter md S k fuel s).
+  Lemma le_build_iter : forall k fuel pend prev s, le s (build_iter md S k fuel pend prev s).
   Proof.
-    induction k as [|k IH]; intros fuel s; cbn [build_iter]; [apply le_refl|].
-    destruct (filter (pending_b s) S) as [|p l]; [apply le_refl|].
-    apply (le_trans _ (build_pass md S fuel (p :: l) s)); [apply le_build_pass | apply IH].
+    induction k as [|k IH]; intros fuel pend prev s; cbn [build_iter]; [apply le_refl|].
+    destruct (is_nil pend || same_names prev pend); [apply le_refl|].
+    apply (le_trans _ (build_pass md S fuel pend s)); [apply le_build_pass | apply IH].
   Qed.
 
   Lemma le_build : forall fuel s, le s (build md S fuel s).
@@ -435,23 +435,168 @@ Proof.
   intros k l x H Hin E. subst. assert (mem_str x l = true) by (apply mem_str_In; exact Hin). congruence.
 Qed.
 
+Lemma core_items_members : forall l, forallb core_item l = true -> forallb core_member l = true.
+Proof.
+  induction l as [|x l IH]; intros H; simpl in *; [reflexivity|].
+  apply andb_true_iff in H. destruct H as [H1 H2]. rewrite (IH H2), andb_true_r.
+  unfold core_member. destruct x; try discriminate; reflexivity.
+Qed.
+
+Lemma core_items_nokeys : forall l, forallb core_item l = true ->
+  forall x k, In x l -> In k (prop_keys x) -> False.
+Proof.
+  intros l H x k Hx Hk. rewrite forallb_forall in H. specialize (H x Hx).
+  destruct x; try discriminate; exact Hk.
+Qed.
+
+Lemma nodup_alookup : forall {V} (l : list (str * V)) n v,
+  nodup_strs (map fst l) = true -> In (n, v) l -> alookup n l = Some v.
+Proof.
+  induction l as [|[k w] l IH]; intros n v Hn Hin; [contradiction|].
+  simpl in Hn. apply andb_true_iff in Hn. destruct Hn as [Hk Hn]. apply negb_true_iff in Hk.
+  simpl. destruct Hin as [Heq|Hin].
+  - inversion Heq; subst. rewrite str_eqb_refl. reflexivity.
+  - destruct (str_eqb n k) eqn:E.
+    + apply str_eqb_eq in E; subst. exfalso.
+      assert (mem_str k (map fst l) = true) by (apply mem_str_In; apply (in_map fst) in Hin; exact Hin).
+      congruence.
+    + apply IH; assumption.
+Qed.
+
+Lemma refs_members : forall l m, In (Ref m) l -> In m (refs (AllOf l)).
+Proof.
+  induction l as [|a l IH]; intros m H; [contradiction|]. simpl. apply in_or_app.
+  destruct H as [->|H]; [left; left; reflexivity | right; apply IH, H].
+Qed.
+
+Lemma nt_declared : forall (S : spec) n nd, alookup n S = Some nd -> alookup n (nt S) = Some nd.
+Proof. intros S n nd H. unfold nt. rewrite alookup_app, H. reflexivity. Qed.
+
+Lemma cls_app : forall p x, nonempty p = true -> cls p = p -> cls (p ++ x) = p ++ x /\ nonempty (p ++ x) = true.
+Proof.
+  intros [|c r] x Hn Hc; [discriminate|]. simpl in *. split; [|reflexivity].
+  destruct (is_lower c) eqn:E; [|reflexivity].
+  exfalso. inversion Hc as [Hu]. unfold upper_ascii in Hu. rewrite E in Hu.
+  unfold is_lower in E. apply andb_true_iff in E. destruct E as [E1 _]. apply N.leb_le in E1. lia.
+Qed.
+
+Lemma flat_map_nil : forall {A B} (f : A -> list B) l, (forall x, In x l -> f x = []) -> flat_map f l = [].
+Proof.
+  induction l as [|x l IH]; intros H; simpl; [reflexivity|].
+  rewrite (H x (or_introl eq_refl)), IH; [reflexivity|]. intros y Hy. apply H. right. exact Hy.
+Qed.
+
+Lemma core_prop_not_obj : forall y, core_prop y = true -> is_obj y = false.
+Proof. destruct y; try discriminate; reflexivity. Qed.
+
+Lemma core_syn : forall p nd, core_top nd = true -> syn_of p nd = [].
+Proof.
+  intros p nd H. destruct nd; try reflexivity. simpl in *.
+  apply flat_map_nil. intros kv Hin. rewrite forallb_forall in H.
+  rewrite (core_prop_not_obj _ (H kv Hin)). reflexivity.
+Qed.
+
+Lemma core_deep : forall nd, core_top nd = true -> deep_keys nd = prop_keys nd.
+Proof.
+  intros nd H. unfold deep_keys. destruct nd; try apply app_nil_r. simpl in H.
+  rewrite flat_map_nil; [apply app_nil_r|]. intros kv Hin. rewrite forallb_forall in H.
+  rewrite (core_prop_not_obj _ (H kv Hin)). reflexivity.
+Qed.
+
+Lemma core_nt : forall S, core_spec S = true -> nt S = S.
+Proof.
+  intros S H. unfold nt. rewrite flat_map_nil; [apply app_nil_r|].
+  intros [n nd] Hin. unfold core_spec in H. apply andb_true_iff in H. destruct H as [H _].
+  rewrite forallb_forall in H. specialize (H _ Hin). simpl in H.
+  repeat (apply andb_true_iff in H; destruct H as [H ?]). apply core_syn. exact H.
+Qed.
+
+Lemma core_inl_top : forall nd, core_top nd = true -> inl_top nd = true.
+Proof.
+  intros nd H. destruct nd; try exact H. simpl in *. rewrite forallb_forall in *.
+  intros kv Hin. unfold inl_prop. rewrite (H kv Hin). reflexivity.
+Qed.
+
+Lemma core_inl : forall S, core_spec S = true ->
+  (forall n nd, In (n, nd) S -> forall m, In m (refs nd) -> In m (map fst S)) -> inl_spec S = true.
+Proof.
+  intros S H HRf. unfold inl_spec. rewrite (core_nt S H).
+  pose proof H as H0. unfold core_spec in H0. apply andb_true_iff in H0. destruct H0 as [HA HN].
+  rewrite HN, andb_true_r. rewrite forallb_forall in *. intros [n nd] Hin. specialize (HA _ Hin). simpl in *.
+  repeat (apply andb_true_iff in HA; destruct HA as [HA ?]).
+  rewrite (core_inl_top _ HA), (core_deep _ HA). simpl.
+  repeat (apply andb_true_iff; split); auto.
+  apply forallb_forall. intros m Hm. apply mem_str_In. eapply HRf; eassumption.
+Qed.
+
 Section InvProofs.
   Variable md : N.
   Variable S : spec.
-  Hypothesis HS : core_spec S = true.
+  Hypothesis HS : inl_spec S = true.
 
   (* ---------------- consequences of the static guard *)
-  Lemma spec_facts : forall n nd, alookup n S = Some nd ->
-    core_top nd = true /\ cls n = n /\ nonempty n = true
-    /\ (forall k, In k (prop_keys nd) -> ~ In k (map fst S)).
+  Lemma spec_facts_in : forall n nd, In (n, nd) S ->
+    inl_top nd = true /\ cls n = n /\ nonempty n = true
+    /\ (forall k, In k (deep_keys nd) -> ~ In k (map fst (nt S)))
+    /\ (forall m, In m (refs nd) -> In m (map fst S)).
   Proof.
-    intros n nd H. apply alookup_In in H. unfold core_spec in HS. apply andb_true_iff in HS. destruct HS as [HA _].
+    intros n nd H. unfold inl_spec in HS. apply andb_true_iff in HS. destruct HS as [HA _].
     rewrite forallb_forall in HA. specialize (HA _ H). simpl in HA.
     repeat (apply andb_true_iff in HA; destruct HA as [HA ?]).
     repeat split; auto.
     - apply str_eqb_eq; assumption.
-    - intros k Hk Hin. rewrite forallb_forall in H0. specialize (H0 _ Hk).
-      apply negb_true_iff in H0. apply mem_str_In in Hin. congruence.
+    - intros k Hk Hin. rewrite forallb_forall in H1. specialize (H1 _ Hk).
+      apply negb_true_iff in H1. apply mem_str_In in Hin. congruence.
+    - intros m Hm. rewrite forallb_forall in H0. apply mem_str_In. apply H0. exact Hm.
+  Qed.
+
+  Lemma spec_facts : forall n nd, alookup n S = Some nd ->
+    inl_top nd = true /\ cls n = n /\ nonempty n = true
+    /\ (forall k, In k (deep_keys nd) -> ~ In k (map fst (nt S)))
+    /\ (forall m, In m (refs nd) -> In m (map fst S)).
+  Proof. intros n nd H. apply spec_facts_in. apply alookup_In. exact H. Qed.
+
+  Lemma nt_nodup : nodup_strs (map fst (nt S)) = true.
+  Proof. unfold inl_spec in HS. apply andb_true_iff in HS. apply HS. Qed.
+
+  Lemma names_nodup : nodup_strs (map fst S) = true.
+  Proof.
+    pose proof nt_nodup as N. unfold nt in N. rewrite map_app in N.
+    clear - N. induction (map fst S) as [|x l IH]; [reflexivity|]. simpl in *.
+    apply andb_true_iff in N. destruct N as [N1 N2]. rewrite (IH N2), andb_true_r.
+    apply negb_true_iff in N1. apply negb_true_iff. rewrite mem_str_app in N1. apply orb_false_iff in N1. apply N1.
+  Qed.
+
+  (* an entry of the name table is a declared schema or a promoted inline object of core properties *)
+  Lemma nt_cases : forall n nd, alookup n (nt S) = Some nd ->
+    alookup n S = Some nd
+    \/ (alookup n S = None /\ core_obj nd = true /\ cls n = n /\ nonempty n = true
+        /\ (forall k, In k (prop_keys nd) -> ~ In k (map fst (nt S)))).
+  Proof.
+    intros n nd H. unfold nt in H. rewrite alookup_app in H.
+    destruct (alookup n S) as [v|] eqn:E; [left; exact H|right].
+    split; [reflexivity|]. apply alookup_In in H. apply in_flat_map in H.
+    destruct H as [[pn pnd] [Hp Hin]]. simpl in Hin.
+    destruct (spec_facts_in _ _ Hp) as (Ht & Hcls & Hne & Hk & _).
+    destruct pnd; try contradiction. simpl in Hin. apply in_flat_map in Hin.
+    destruct Hin as [[key x] [Hkv Hx]]. simpl in Hx.
+    destruct (is_obj x) eqn:Eo; [|contradiction]. destruct Hx as [Hx|[]]. inversion Hx; subst n nd. clear Hx.
+    simpl in Ht. rewrite forallb_forall in Ht. specialize (Ht _ Hkv). simpl in Ht. unfold inl_prop in Ht.
+    assert (Co : core_obj x = true) by (destruct x; try discriminate; exact Ht).
+    destruct (cls_app pn (cls key) Hne Hcls) as [C1 C2].
+    split; [exact Co|]. split; [exact C1|]. split; [exact C2|].
+    intros k Hin. apply Hk. unfold deep_keys. apply in_or_app. right.
+    apply in_flat_map. exists (key, x). split; [exact Hkv|]. simpl. rewrite Eo. exact Hin.
+  Qed.
+
+  Lemma nt_inline : forall n ps rq key pn,
+    alookup n S = Some (Obj ps rq) -> In (key, pn) ps -> is_obj pn = true ->
+    alookup (n ++ cls key) (nt S) = Some pn.
+  Proof.
+    intros n ps rq key pn Hl Hin Ho. apply nodup_alookup; [apply nt_nodup|].
+    unfold nt. apply in_or_app. right. apply in_flat_map. exists (n, Obj ps rq).
+    split; [apply alookup_In; exact Hl|]. simpl. apply in_flat_map. exists (key, pn).
+    split; [exact Hin|]. simpl. rewrite Ho. left. reflexivity.
   Qed.
 
   (* ---------------- the invariant *)
@@ -462,11 +607,20 @@ Section InvProofs.
     i_circ e = false /\ i_unres e = false /\ i_depthm e = false /\ i_stub e = false
     /\ (forall n, i_ty e <> Some (TyNamed n)).
 
-  Definition member_ok (nd : node) (r : ir) : Prop :=
-    exists f m, decl_node f S nd = Some m /\ fvals (i_props r) = fst m /\ i_req r = snd m.
+  Definition member_ok (pn : option str) (nd : node) (r : ir) : Prop :=
+    exists f m, decl_node f S pn nd = Some m /\ fvals (i_props r) = fst m /\ i_req r = snd m.
+
+  Lemma core_props_ty : forall pn ps, forallb (fun kv => core_prop (snd kv)) ps = true ->
+    map (fun kv : str * node => (fst kv, ty_of_prop pn (fst kv) (snd kv))) ps
+    = map (fun kv => (fst kv, ty_of (snd kv))) ps.
+  Proof.
+    induction ps as [|[k x] ps IH]; intros H; simpl in *; [reflexivity|].
+    apply andb_true_iff in H. destruct H as [H1 H2]. rewrite (IH H2). f_equal.
+    destruct x; try discriminate; reflexivity.
+  Qed.
 
   Definition good (k : str) (e : ir) : Prop :=
-    exists nd, alookup k S = Some nd /\ i_name e = Some k /\ clean_ir e /\ member_ok nd e.
+    exists nd, alookup k (nt S) = Some nd /\ i_name e = Some k /\ clean_ir e /\ member_ok (Some k) nd e /\ kind_ok nd e.
 
   Definition Inv (s : st) : Prop :=
     (forall k e, In (k, e) (parsed s) -> good k e /\ (i_id e < nid s)%N) /\ cycles s = [].
@@ -481,7 +635,7 @@ Section InvProofs.
                           /\ older s' id /\ parsed s' = parsed s
     | Arr y => exists id it, r = IR id None (Some TyArray) [] [] (Some it) None None None false false false false false false
                              /\ tyref_of None it = ty_of y /\ older s' id
-    | Obj ps rq => i_name r = None /\ member_ok nd r
+    | Obj ps rq => i_name r = None /\ member_ok None nd r
     | _ => True
     end.
 
@@ -490,9 +644,9 @@ Section InvProofs.
   Definition rec_ok (rec : option str -> node -> st -> ir * st) : Prop :=
     forall name nd s r s', rec name nd s = (r, s') -> events s' = [] -> oof s' = false -> Inv s ->
       match name with
-      | None => core_anon nd = true -> (forall k, In k (prop_keys nd) -> ~ In k (map fst S)) ->
+      | None => core_anon nd = true -> (forall k, In k (prop_keys nd) -> ~ In k (map fst (nt S))) ->
                 Inv s' /\ anon_ok s s' nd r
-      | Some n => alookup n S = Some nd -> Inv s' /\ good n r /\ alookup n (parsed s') = Some r
+      | Some n => alookup n (nt S) = Some nd -> Inv s' /\ good n r /\ alookup n (parsed s') = Some r
       end.
 
   Lemma good_tyref : forall m e key, good m e -> key <> Some m -> tyref_of key e = TRef m.
@@ -504,10 +658,18 @@ Section InvProofs.
        [destruct (str_eqb m kk) eqn:E; [apply str_eqb_eq in E; subst; congruence | reflexivity] | reflexivity]).
   Qed.
 
-  Lemma good_member_ref : forall m e, good m e -> member_ok (Ref m) e.
+  Lemma good_member_ref : forall pn m e, In m (map fst S) -> good m e -> member_ok pn (Ref m) e.
   Proof.
-    intros m e (nd & Hl & _ & _ & (f & mm & Hd & H1 & H2)).
-    exists (Datatypes.S f), mm. simpl. rewrite Hl. auto.
+    intros pn m e Hin (nd & Hl & _ & _ & (f & mm & Hd & H1 & H2) & _).
+    destruct (nt_cases _ _ Hl) as [HlS|(HlS & _)].
+    - exists (Datatypes.S f), mm. simpl. rewrite HlS. auto.
+    - exfalso. apply in_map_iff in Hin. destruct Hin as [[m' nd'] [E Hin]]. simpl in E. subst m'.
+      assert (ND : nodup_strs (map fst S) = true).
+      { pose proof nt_nodup as N. unfold nt in N. rewrite map_app in N.
+        clear - N. induction (map fst S) as [|x l IH]; [reflexivity|]. simpl in *.
+        apply andb_true_iff in N. destruct N as [N1 N2]. rewrite (IH N2), andb_true_r.
+        apply negb_true_iff in N1. apply negb_true_iff. rewrite mem_str_app in N1. apply orb_false_iff in N1. apply N1. }
+      rewrite (nodup_alookup _ _ _ ND Hin) in HlS. discriminate.
   Qed.
 
   Lemma item_ty : forall s s' y r, core_item y = true -> anon_ok s s' y r -> tyref_of None r = ty_of y.
@@ -545,7 +707,7 @@ Section InvProofs.
         assert (D : i_depthm e = false) by (destruct Hg as (nd & _ & _ & (_ & _ & D & _) & _); exact D).
         rewrite D in H. inversion H; subst. auto.
       - destruct (alookup m S) as [nd|] eqn:El.
-        + pose proof (Hrec (Some m) nd s r s' H He Ho HI El) as (A & B & C).
+        + pose proof (Hrec (Some m) nd s r s' H He Ho HI (nt_declared _ _ _ El)) as (A & B & C).
           split; [exact A|]. split; [exact B|]. split; [exact C|]. intro; discriminate.
         + inversion H; subst. simpl in He. discriminate.
     Qed.
@@ -590,15 +752,15 @@ Section InvProofs.
     (* ---------------- _parse_properties on core properties *)
     Lemma props_ok : forall ps parent acc s out s',
       forallb (fun kv => core_prop (snd kv)) ps = true ->
-      (forall k, In k (map fst ps) -> ~ In k (map fst S)) ->
+      (forall k, In k (map fst ps) -> ~ In k (map fst (nt S))) ->
       parse_props S rec ps parent acc s = (out, s') -> events s' = [] -> oof s' = false -> Inv s ->
       Inv s' /\ fvals out = merge_into (fvals acc) (map (fun kv => (fst kv, ty_of (snd kv))) ps).
     Proof.
       induction ps as [|[key pn] ps IH]; intros parent acc s out s' Hc Hk H He Ho HI.
       - simpl in H. inversion H; subst. auto.
       - simpl in Hc. apply andb_true_iff in Hc. destruct Hc as [Hc1 Hc2].
-        assert (Hk2 : forall k, In k (map fst ps) -> ~ In k (map fst S)) by (intros k Hin; apply Hk; right; exact Hin).
-        assert (Hkey : ~ In key (map fst S)) by (apply Hk; left; reflexivity).
+        assert (Hk2 : forall k, In k (map fst ps) -> ~ In k (map fst (nt S))) by (intros k Hin; apply Hk; right; exact Hin).
+        assert (Hkey : ~ In key (map fst (nt S))) by (apply Hk; left; reflexivity).
         simpl in H. simpl map.
         destruct (alookup key acc) as [v0|] eqn:Ea.
         { destruct (alookup_fvals_some _ _ _ Ea) as [t Et].
@@ -628,7 +790,7 @@ Section InvProofs.
             pose proof (le_parse_props S rec Hm ps parent (acc ++ [(key, set_name (Some key) pr)]) sx) as L end.
           rewrite H in L. simpl in L. destruct L as (L1 & L2 & _).
           assert (CA : core_anon (Arr pn) = true) by (unfold core_anon; simpl; rewrite Hc1; reflexivity).
-          assert (NK : forall k, In k (prop_keys (Arr pn)) -> ~ In k (map fst S)) by (intros k0 []).
+          assert (NK : forall k, In k (prop_keys (Arr pn)) -> ~ In k (map fst (nt S))) by (intros k0 []).
           pose proof (Hrec None (Arr pn) s pr s1 Er (L1 He) (L2 Ho) HI CA NK) as (I1 & (id & it & -> & Hit & Hold)).
           simpl i_id in H. rewrite (update_id_older _ _ _ Hold) in H.
           assert (I1' : Inv (w_parsed (parsed s1) s1)) by exact I1.
@@ -642,7 +804,7 @@ Section InvProofs.
             pose proof (le_parse_props S rec Hm ps parent (acc ++ [(key, set_name (Some key) pr)]) sx) as L end.
           rewrite H in L. simpl in L. destruct L as (L1 & L2 & _).
           assert (CA : core_anon (Prim k) = true) by reflexivity.
-          assert (NK : forall k0, In k0 (prop_keys (Prim k)) -> ~ In k0 (map fst S)) by (intros k0 []).
+          assert (NK : forall k0, In k0 (prop_keys (Prim k)) -> ~ In k0 (map fst (nt S))) by (intros k0 []).
           pose proof (Hrec None (Prim k) s pr s1 Er (L1 He) (L2 Ho) HI CA NK) as (I1 & (id & -> & Hold & _)).
           simpl i_id in H. rewrite (update_id_older _ _ _ Hold) in H.
           assert (I1' : Inv (w_parsed (parsed s1) s1)) by exact I1.
@@ -650,14 +812,111 @@ Section InvProofs.
           split; [exact I2|]. rewrite F, fvals_app. simpl. rewrite str_eqb_refl. reflexivity.
     Qed.
 
+    (* ... and with inline object properties promoted to <Parent><Prop> *)
+    Lemma props_ok_inl : forall ps parent acc s out s',
+      forallb (fun kv => inl_prop (snd kv)) ps = true ->
+      (forall key pn, In (key, pn) ps -> is_obj pn = true ->
+         exists p, parent_truthy parent = Some p /\ alookup (p ++ cls key) (nt S) = Some pn) ->
+      (forall k, In k (map fst ps) -> ~ In k (map fst (nt S))) ->
+      parse_props S rec ps parent acc s = (out, s') -> events s' = [] -> oof s' = false -> Inv s ->
+      Inv s' /\ fvals out = merge_into (fvals acc) (map (fun kv => (fst kv, ty_of_prop parent (fst kv) (snd kv))) ps).
+    Proof.
+      induction ps as [|[key pn] ps IH]; intros parent acc s out s' Hc Hinl Hk H He Ho HI.
+      - simpl in H. inversion H; subst. auto.
+      - simpl in Hc. apply andb_true_iff in Hc. destruct Hc as [Hc1 Hc2].
+        assert (Hk2 : forall k, In k (map fst ps) -> ~ In k (map fst (nt S))) by (intros k Hin; apply Hk; right; exact Hin).
+        assert (Hkey : ~ In key (map fst (nt S))) by (apply Hk; left; reflexivity).
+        assert (Hin2 : forall key0 pn0, In (key0, pn0) ps -> is_obj pn0 = true ->
+                  exists p, parent_truthy parent = Some p /\ alookup (p ++ cls key0) (nt S) = Some pn0)
+          by (intros key0 pn0 Hi Ho0; apply Hinl; [right; exact Hi | exact Ho0]).
+        unfold inl_prop in Hc1.
+        simpl in H. simpl map.
+        destruct (alookup key acc) as [v0|] eqn:Ea.
+        { destruct (alookup_fvals_some _ _ _ Ea) as [t Et].
+          rewrite (merge_into_cons_old _ _ _ _ _ Et). eapply IH; eauto. }
+        pose proof (alookup_fvals_none _ _ Ea) as En.
+        rewrite (merge_into_cons_new _ _ _ _ En).
+        destruct pn; try discriminate.
+        + (* Ref *)
+          destruct (resolve_ref S rec n s) as [v s1] eqn:Er.
+          pose proof (le_parse_props S rec Hm ps parent (acc ++ [(key, v)]) s1) as L. rewrite H in L. simpl in L.
+          destruct L as (L1 & L2 & _).
+          destruct (resolve_ok _ _ _ _ Er (L1 He) (L2 Ho) HI) as (I1 & G & _).
+          destruct (IH _ _ _ _ _ Hc2 Hin2 Hk2 H He Ho I1) as (I2 & F).
+          split; [exact I2|]. rewrite F, fvals_app. simpl.
+          rewrite (good_tyref _ _ (Some key) G); [reflexivity|].
+          intro E. inversion E; subst. apply Hkey.
+          destruct G as (nd & Hl & _). apply alookup_In in Hl. apply (in_map fst) in Hl. exact Hl.
+        + (* inline object: promotion to <Parent><Prop> *)
+          destruct (Hinl key (Obj ps0 req) (or_introl eq_refl) eq_refl) as (p & Hp & Hnt).
+          assert (Hnp : nonempty (p ++ cls key) = true).
+          { destruct parent as [q|]; simpl in Hp; [|discriminate]. destruct (nonempty q) eqn:Eq; [|discriminate].
+            inversion Hp; subst. destruct p; [discriminate|reflexivity]. }
+          rewrite Hp in H.
+          destruct (rec (Some (p ++ cls key)) (Obj ps0 req) s) as [pr s1] eqn:Er.
+          match type of H with parse_props _ _ _ _ (acc ++ [(key, ?h)]) ?sx = _ =>
+            pose proof (le_parse_props S rec Hm ps parent (acc ++ [(key, h)]) sx) as L;
+            assert (Ev1 : events sx = events s1) by (destruct (flagged pr); reflexivity);
+            assert (Oo1 : oof sx = oof s1) by (destruct (flagged pr); reflexivity)
+          end.
+          rewrite H in L. cbn [snd] in L. destruct L as (L1 & L2 & _). rewrite Ev1 in L1. rewrite Oo1 in L2.
+          pose proof (Hrec (Some (p ++ cls key)) (Obj ps0 req) s pr s1 Er (L1 He) (L2 Ho) HI Hnt) as (I1 & G & Reg).
+          assert (Hname : i_name pr = Some (p ++ cls key)) by (destruct G as (? & _ & Hn0 & _); exact Hn0).
+          assert (Hfl : flagged pr = false).
+          { destruct G as (? & _ & _ & (C1 & C2 & C3 & _) & _). unfold flagged. rewrite C1, C2, C3. reflexivity. }
+          rewrite Hfl, Hname in H. cbn [option_map] in H. rewrite Hnp in H.
+          change (parsed (bump s1)) with (parsed s1) in H. rewrite Reg, N.eqb_refl in H.
+          assert (I3 : Inv (reg (p ++ cls key) pr (bump s1))).
+          { destruct I1 as [I1a I1c]. split; [|exact I1c]. intros k e Hi. simpl in Hi. apply in_aset in Hi.
+            destruct Hi as [Hi|Heq].
+            - destruct (I1a _ _ Hi) as [Gk Lk]. split; [exact Gk|]. simpl. lia.
+            - inversion Heq; subst. split; [exact G|].
+              destruct (I1a _ _ (alookup_In _ _ _ Reg)) as [_ Lk]. simpl. lia. }
+          destruct (IH _ _ _ _ _ Hc2 Hin2 Hk2 H He Ho I3) as (I2 & F).
+          split; [exact I2|]. rewrite F, fvals_app. simpl. rewrite Hp. reflexivity.
+        + (* Arr *)
+          simpl in Hc1. rewrite ?orb_false_r in Hc1.
+          assert (SA : is_simple_array (Arr pn) = true).
+          { simpl. destruct pn; try discriminate; reflexivity. }
+          assert (R : (match parent_truthy parent with _ => true end) = true) by reflexivity.
+          change (is_simple_primitive (Arr pn)) with false in H. rewrite SA in H. simpl orb in H. cbv iota in H.
+          destruct (rec None (Arr pn) s) as [pr s1] eqn:Er.
+          cbn [negb andb] in H.
+          match type of H with parse_props _ _ _ _ _ ?sx = _ =>
+            pose proof (le_parse_props S rec Hm ps parent (acc ++ [(key, set_name (Some key) pr)]) sx) as L end.
+          rewrite H in L. simpl in L. destruct L as (L1 & L2 & _).
+          assert (CA : core_anon (Arr pn) = true) by (unfold core_anon; simpl; rewrite Hc1; reflexivity).
+          assert (NK : forall k, In k (prop_keys (Arr pn)) -> ~ In k (map fst (nt S))) by (intros k0 []).
+          pose proof (Hrec None (Arr pn) s pr s1 Er (L1 He) (L2 Ho) HI CA NK) as (I1 & (id & it & -> & Hit & Hold)).
+          simpl i_id in H. rewrite (update_id_older _ _ _ Hold) in H.
+          assert (I1' : Inv (w_parsed (parsed s1) s1)) by exact I1.
+          destruct (IH _ _ _ _ _ Hc2 Hin2 Hk2 H He Ho I1') as (I2 & F).
+          split; [exact I2|]. rewrite F, fvals_app. simpl. rewrite str_eqb_refl, Hit. reflexivity.
+        + (* Prim *)
+          change (is_simple_primitive (Prim k)) with true in H. simpl orb in H. cbv iota in H.
+          destruct (rec None (Prim k) s) as [pr s1] eqn:Er.
+          cbn [negb andb] in H.
+          match type of H with parse_props _ _ _ _ _ ?sx = _ =>
+            pose proof (le_parse_props S rec Hm ps parent (acc ++ [(key, set_name (Some key) pr)]) sx) as L end.
+          rewrite H in L. simpl in L. destruct L as (L1 & L2 & _).
+          assert (CA : core_anon (Prim k) = true) by reflexivity.
+          assert (NK : forall k0, In k0 (prop_keys (Prim k)) -> ~ In k0 (map fst (nt S))) by (intros k0 []).
+          pose proof (Hrec None (Prim k) s pr s1 Er (L1 He) (L2 Ho) HI CA NK) as (I1 & (id & -> & Hold & _)).
+          simpl i_id in H. rewrite (update_id_older _ _ _ Hold) in H.
+          assert (I1' : Inv (w_parsed (parsed s1) s1)) by exact I1.
+          destruct (IH _ _ _ _ _ Hc2 Hin2 Hk2 H He Ho I1') as (I2 & F).
+          split; [exact I2|]. rewrite F, fvals_app. simpl. rewrite str_eqb_refl. reflexivity.
+    Qed.
+
     (* ---------------- allOf members *)
     Lemma list_ok : forall l s ms s',
       forallb core_member l = true ->
-      (forall x k, In x l -> In k (prop_keys x) -> ~ In k (map fst S)) ->
+      (forall x k, In x l -> In k (prop_keys x) -> ~ In k (map fst (nt S))) ->
+      (forall m, In (Ref m) l -> In m (map fst S)) ->
       parse_list rec l s = (ms, s') -> events s' = [] -> oof s' = false -> Inv s ->
-      Inv s' /\ Forall2 member_ok l ms.
+      Inv s' /\ Forall2 (member_ok None) l ms.
     Proof.
-      induction l as [|x l IH]; intros s ms s' Hc Hkeys H He Ho HI; simpl in H.
+      induction l as [|x l IH]; intros s ms s' Hc Hkeys Hrf H He Ho HI; simpl in H.
       - inversion H; subst. split; [exact HI | constructor].
       - simpl in Hc. apply andb_true_iff in Hc. destruct Hc as [Hc1 Hc2].
         destruct (rec None x s) as [i s1] eqn:E1. destruct (parse_list rec l s1) as [is_ s2] eqn:E2.
@@ -665,13 +924,15 @@ Section InvProofs.
         pose proof (le_parse_list rec Hm l s1) as L. rewrite E2 in L. simpl in L. destruct L as (L1 & L2 & _).
         assert (CA : core_anon x = true).
         { unfold core_anon, core_member in *. destruct x; try discriminate; simpl in *; try reflexivity.
-          exact Hc1. }
+          rewrite ?orb_false_r in Hc1. exact Hc1. }
         pose proof (Hrec None x s i s1 E1 (L1 He) (L2 Ho) HI CA (fun k => Hkeys x k (or_introl eq_refl))) as (I1 & A).
-        destruct (IH _ _ _ Hc2 (fun y k Hy => Hkeys y k (or_intror Hy)) E2 He Ho I1) as (I2 & F).
+        destruct (IH _ _ _ Hc2 (fun y k Hy => Hkeys y k (or_intror Hy)) (fun m Hm0 => Hrf m (or_intror Hm0)) E2 He Ho I1) as (I2 & F).
         split; [exact I2|]. constructor; [|exact F].
         unfold core_member in Hc1. destruct x; try discriminate; simpl in A.
-        + apply good_member_ref, A.
+        + apply good_member_ref; [apply Hrf; left; reflexivity | apply A].
         + apply A.
+        + destruct A as (id & -> & _). exists 1%nat, ([], []). simpl. auto.
+        + destruct A as (id & -> & _). exists 1%nat, ([], []). simpl. auto.
     Qed.
   End WithRec.
 
@@ -707,8 +968,8 @@ Section InvProofs.
   Lemma req_merge : forall ms, merge_req [] (map as_member ms) = merge_req [] (map tmember ms).
   Proof. intros. unfold merge_req. simpl. f_equal. rewrite !map_map. reflexivity. Qed.
 
-  Lemma members_common_fuel : forall l ms, Forall2 member_ok l ms ->
-    exists F, Forall2 (fun x r => decl_node F S x = Some (tmember r)) l ms.
+  Lemma members_common_fuel : forall l ms, Forall2 (member_ok None) l ms ->
+    exists F, Forall2 (fun x r => decl_node F S None x = Some (tmember r)) l ms.
   Proof.
     induction 1 as [|x r l ms (f & m & Hd & H1 & H2) _ (F & IH)].
     - exists O. constructor.
@@ -719,8 +980,8 @@ Section InvProofs.
   Qed.
 
   Lemma decl_members_run : forall F l ms acc,
-    Forall2 (fun x r => decl_node F S x = Some (tmember r)) l ms ->
-    decl_members (decl_node F S) l acc
+    Forall2 (fun x r => decl_node F S None x = Some (tmember r)) l ms ->
+    decl_members (decl_node F S None) l acc
     = Some (merge_props (rev acc ++ map tmember ms), merge_req [] (rev acc ++ map tmember ms)).
   Proof.
     induction l as [|x l IH]; intros ms acc H; inversion H; subst; simpl.
@@ -728,11 +989,11 @@ Section InvProofs.
     - rewrite H2. rewrite (IH _ _ H4). simpl. rewrite <- !app_assoc. reflexivity.
   Qed.
 
-  Lemma allof_member_ok : forall l ms x, Forall2 member_ok l ms ->
+  Lemma allof_member_ok : forall pn l ms x, Forall2 (member_ok None) l ms ->
     i_props x = merge_props (map as_member ms) -> i_req x = merge_req [] (map as_member ms) ->
-    member_ok (AllOf l) x.
+    member_ok pn (AllOf l) x.
   Proof.
-    intros l ms x H Hp Hr. destruct (members_common_fuel _ _ H) as [F HF].
+    intros pn l ms x H Hp Hr. destruct (members_common_fuel _ _ H) as [F HF].
     exists (Datatypes.S F), (merge_props (map tmember ms), merge_req [] (map tmember ms)).
     split; [simpl; rewrite (decl_members_run _ _ _ _ HF); reflexivity|].
     simpl. rewrite Hp, Hr, fvals_merge, req_merge. auto.
@@ -742,7 +1003,7 @@ End InvProofs.
 Section StepProofs.
   Variable md : N.
   Variable S : spec.
-  Hypothesis HS : core_spec S = true.
+  Hypothesis HS : inl_spec S = true.
   Notation Inv := (Inv S).
   Notation good := (good S).
   Notation member_ok := (member_ok S).
@@ -760,17 +1021,15 @@ Section StepProofs.
 
   (* registration of a fresh, clean IR under the declared name it was parsed for *)
   Lemma finish_named : forall n nd x s r s',
-    alookup n S = Some nd ->
+    alookup n (nt S) = Some nd -> cls n = n -> nonempty n = true ->
+    (match i_ty x with Some (TyPrim _) => negb (i_enum x) | _ => false end
+     && negb (match alookup n S with Some _ => true | None => false end)) = false ->
     finish S (Some n) x s = (r, s') -> events s' = [] -> Inv s ->
-    i_name x = Some n -> clean_ir x -> member_ok nd x -> (i_id x < nid s)%N ->
+    i_name x = Some n -> clean_ir x -> member_ok (Some n) nd x -> kind_ok nd x -> (i_id x < nid s)%N ->
     Inv s' /\ r = x /\ alookup n (parsed s') = Some x.
   Proof.
-    intros n nd x s r s' Hl H He HI Hn Hc Hmem Hid.
-    destruct (spec_facts S HS _ _ Hl) as (_ & Hcls & Hne & _).
+    intros n nd x s r s' Hl Hcls Hne T H He HI Hn Hc Hmem Hkind Hid.
     unfold finish in H. rewrite Hne in H. simpl negb in H. cbv iota in H.
-    assert (T : (match i_ty x with Some (TyPrim _) => negb (i_enum x) | _ => false end
-                 && negb (match alookup n S with Some _ => true | None => false end)) = false).
-    { rewrite Hl. simpl. apply andb_false_r. }
     rewrite T in H. unfold registered in H. rewrite Hcls in H.
     destruct (alookup n (parsed s)) as [e|] eqn:E.
     - (* already registered: either shadowed or overwrite, both leave an event *)
@@ -834,7 +1093,7 @@ Section StepProofs.
 
     Lemma body_anon : forall nd s r s',
       parse_body S rec None nd s = (r, s') -> events s' = [] -> oof s' = false -> Inv s ->
-      core_anon nd = true -> (forall k, In k (prop_keys nd) -> ~ In k (map fst S)) ->
+      core_anon nd = true -> (forall k, In k (prop_keys nd) -> ~ In k (map fst (nt S))) ->
       Inv s' /\ anon_ok s s' nd r.
     Proof.
       intros nd s r s' H He Ho HI Hc Hk. destruct nd; try discriminate; simpl in H.
@@ -847,7 +1106,7 @@ Section StepProofs.
         destruct (props_ok S rec Hrec Hm _ _ _ _ _ _ Hc Hk E He Ho HI) as (I1 & F).
         split; [apply Inv_bump, I1|]. simpl. split; [reflexivity|].
         exists 1%nat, (merge_into [] (map (fun kv => (fst kv, ty_of (snd kv))) ps), req).
-        simpl. auto.
+        simpl. rewrite (core_props_ty None ps Hc). auto.
       - (* Arr *)
         unfold core_anon in Hc. simpl in Hc. rewrite !orb_false_r in Hc.
         destruct (parse_items rec None nd s) as [it s1] eqn:E1.
@@ -875,25 +1134,54 @@ Section StepProofs.
 
     Lemma body_named : forall n nd s r s',
       parse_body S rec (Some n) nd s = (r, s') -> events s' = [] -> oof s' = false -> Inv s ->
-      alookup n S = Some nd ->
+      alookup n (nt S) = Some nd ->
       Inv s' /\ good n r /\ alookup n (parsed s') = Some r.
     Proof.
       intros n nd s r s' H He Ho HI Hl.
-      destruct (spec_facts S HS _ _ Hl) as (Hc & Hcls & Hne & Hk).
+      destruct (nt_cases S HS _ _ Hl) as [HlS | (HlN & Hco & Hcls & Hne & Hk)].
+      2: { (* a promoted inline object of core properties *)
+        destruct nd; try discriminate. cbn -[finish parse_props parse_items parse_list] in H. rewrite Hne, Hcls in H.
+        simpl in Hco.
+        destruct (parse_props S rec ps (Some n) [] s) as [props s1] eqn:E.
+        set (X := IR (nid s1) (Some n) (Some TyObject) props req None None None None false false false false false false) in *.
+        pose proof (le_finish S (Some n) X (bump s1)) as L.
+        rewrite H in L. simpl in L. destruct L as (L1 & L2 & _). simpl in L1, L2.
+        destruct (props_ok S rec Hrec Hm _ _ _ _ _ _ Hco Hk E (L1 He) (L2 Ho) HI) as (I1 & F).
+        assert (Mem : member_ok (Some n) (Obj ps req) X).
+        { exists 1%nat, (merge_into [] (map (fun kv => (fst kv, ty_of (snd kv))) ps), req).
+          simpl. rewrite (core_props_ty (Some n) ps Hco). auto. }
+        assert (Cl : clean_ir X) by (apply clean_mk; discriminate).
+        assert (Lt : (i_id X < nid (bump s1))%N) by (simpl; lia).
+        assert (TT : (match i_ty X with Some (TyPrim _) => negb (i_enum X) | _ => false end
+                      && negb (match alookup n S with Some _ => true | None => false end)) = false) by reflexivity.
+        destruct (finish_named n (Obj ps req) X (bump s1) r s' Hl Hcls Hne TT H He (Inv_bump _ I1) eq_refl Cl Mem eq_refl Lt) as (A & -> & C).
+        split; [exact A|]. split; [|exact C]. exists (Obj ps req). split; [exact Hl|]. split; [reflexivity|].
+        split; [exact Cl|]. split; [exact Mem | reflexivity]. }
+      destruct (spec_facts S HS _ _ HlS) as (Hc & Hcls & Hne & Hk0 & Hrf).
+      assert (Hk : forall k, In k (prop_keys nd) -> ~ In k (map fst (nt S)))
+        by (intros k Hin0; apply Hk0; unfold deep_keys; apply in_or_app; left; exact Hin0).
+      assert (T : forall x : ir, (match i_ty x with Some (TyPrim _) => negb (i_enum x) | _ => false end
+                   && negb (match alookup n S with Some _ => true | None => false end)) = false)
+        by (intros x; rewrite HlS; simpl; apply andb_false_r).
       assert (G : forall x t t', finish S (Some n) x t = (r, t') -> events t' = [] -> Inv t ->
-                  i_name x = Some n -> clean_ir x -> member_ok nd x -> (i_id x < nid t)%N ->
+                  i_name x = Some n -> clean_ir x -> member_ok (Some n) nd x -> kind_ok nd x -> (i_id x < nid t)%N ->
                   Inv t' /\ good n r /\ alookup n (parsed t') = Some r).
-      { intros x t t' Hf Hev Hi Hn Hcl Hmem Hid.
-        destruct (finish_named _ _ _ _ _ _ Hl Hf Hev Hi Hn Hcl Hmem Hid) as (A & -> & C).
+      { intros x t t' Hf Hev Hi Hn Hcl Hmem Hkind Hid.
+        destruct (finish_named _ _ _ _ _ _ Hl Hcls Hne (T x) Hf Hev Hi Hn Hcl Hmem Hkind Hid) as (A & -> & C).
         split; [exact A|]. split; [|exact C]. exists nd. auto. }
       destruct nd; try discriminate; cbn -[finish parse_props parse_items parse_list] in H; rewrite Hne, Hcls in H.
       - (* Obj *)
         destruct (parse_props S rec ps (Some n) [] s) as [props s1] eqn:E.
         pose proof (le_finish S (Some n) (IR (nid s1) (Some n) (Some TyObject) props req None None None None false false false false false false) (bump s1)) as L.
         rewrite H in L. simpl in L. destruct L as (L1 & L2 & _). simpl in L1, L2.
-        destruct (props_ok S rec Hrec Hm _ _ _ _ _ _ Hc Hk E (L1 He) (L2 Ho) HI) as (I1 & F).
-        eapply G; [exact H | exact He | apply Inv_bump, I1 | reflexivity | apply clean_mk; discriminate | | simpl; lia].
-        exists 1%nat, (merge_into [] (map (fun kv => (fst kv, ty_of (snd kv))) ps), req). simpl. auto.
+        assert (Hinl : forall key pn, In (key, pn) ps -> is_obj pn = true ->
+                  exists p, parent_truthy (Some n) = Some p /\ alookup (p ++ cls key) (nt S) = Some pn).
+        { intros key pn Hi Hob. exists n. split; [simpl; rewrite Hne; reflexivity|].
+          eapply (nt_inline S HS); eauto. }
+        destruct (props_ok_inl S rec Hrec Hm _ _ _ _ _ _ Hc Hinl Hk E (L1 He) (L2 Ho) HI) as (I1 & F).
+        eapply G; [exact H | exact He | apply Inv_bump, I1 | reflexivity | apply clean_mk; discriminate | | reflexivity | simpl; lia].
+        exists 1%nat, (merge_into [] (map (fun kv => (fst kv, ty_of_prop (Some n) (fst kv) (snd kv))) ps), req).
+        simpl. auto.
       - (* Arr *)
         simpl in Hc.
         destruct (parse_items rec (Some n) nd s) as [it s1] eqn:E1.
@@ -904,26 +1192,62 @@ Section StepProofs.
         destruct L' as (L1' & L2' & L3' & _). simpl in L3'.
         destruct (items_ok S rec Hrec _ _ _ _ _ Hc E1 (L1' (L1 He)) (L2' (L2 Ho)) HI) as (I1 & A1).
         destruct (items_ok S rec Hrec _ _ _ _ _ Hc E2 (L1 He) (L2 Ho) (Inv_bump _ I1)) as (I2 & A2).
-        eapply G; [exact H | exact He | exact I2 | reflexivity | apply clean_mk; discriminate | | simpl; lia].
+        eapply G; [exact H | exact He | exact I2 | reflexivity | apply clean_mk; discriminate | | | simpl; lia].
+        { exists 1%nat, ([], []). simpl. auto. }
+        { unfold kind_ok, struct_of. cbn. rewrite str_eqb_refl. cbn. f_equal. eapply item_ty; eassumption. }
+      - (* OneOf *)
+        simpl in Hc.
+        destruct (parse_list rec l s) as [ms s1] eqn:E.
+        match type of H with finish _ _ ?x _ = _ => pose proof (le_finish S (Some n) x (bump s1)) as L end.
+        rewrite H in L. simpl in L. destruct L as (L1 & L2 & _). simpl in L1, L2.
+        destruct (list_ok S HS rec Hrec Hm _ _ _ _ (core_items_members _ Hc)
+                    (fun x k Hx Hkx => False_ind _ (core_items_nokeys _ Hc x k Hx Hkx))
+                    (fun m Hm0 => Hrf m (refs_members l m Hm0)) E (L1 He) (L2 Ho) HI) as (I1 & _).
+        eapply G; [exact H | exact He | apply Inv_bump, I1 | reflexivity
+                  | apply clean_mk; intros n0; destruct (filter_members ms); discriminate | | exact I | simpl; lia].
+        exists 1%nat, ([], []). simpl. auto.
+      - (* AnyOf *)
+        simpl in Hc.
+        destruct (parse_list rec l s) as [ms s1] eqn:E.
+        match type of H with finish _ _ ?x _ = _ => pose proof (le_finish S (Some n) x (bump s1)) as L end.
+        rewrite H in L. simpl in L. destruct L as (L1 & L2 & _). simpl in L1, L2.
+        destruct (list_ok S HS rec Hrec Hm _ _ _ _ (core_items_members _ Hc)
+                    (fun x k Hx Hkx => False_ind _ (core_items_nokeys _ Hc x k Hx Hkx))
+                    (fun m Hm0 => Hrf m (refs_members l m Hm0)) E (L1 He) (L2 Ho) HI) as (I1 & _).
+        eapply G; [exact H | exact He | apply Inv_bump, I1 | reflexivity
+                  | apply clean_mk; intros n0; destruct (filter_members ms); discriminate | | exact I | simpl; lia].
         exists 1%nat, ([], []). simpl. auto.
       - (* AllOf *)
         simpl in Hc.
         destruct (parse_list rec l s) as [ms s1] eqn:E.
         match type of H with finish _ _ ?x _ = _ => pose proof (le_finish S (Some n) x (bump s1)) as L end.
         rewrite H in L. simpl in L. destruct L as (L1 & L2 & _). simpl in L1, L2.
-        assert (Hk' : forall x k, In x l -> In k (prop_keys x) -> ~ In k (map fst S)).
+        assert (Hk' : forall x k, In x l -> In k (prop_keys x) -> ~ In k (map fst (nt S))).
         { intros x k Hx Hkx. apply Hk. clear - Hx Hkx. simpl.
           induction l as [|y l IH]; [contradiction|]. apply in_or_app.
           destruct Hx as [->|Hx]; [left; exact Hkx | right; apply IH, Hx]. }
-        destruct (list_ok S rec Hrec Hm _ _ _ _ Hc Hk' E (L1 He) (L2 Ho) HI) as (I1 & F).
-        eapply G; [exact H | exact He | apply Inv_bump, I1 | reflexivity | apply clean_mk; discriminate | | simpl; lia].
+        destruct (list_ok S HS rec Hrec Hm _ _ _ _ Hc Hk' (fun m Hm0 => Hrf m (refs_members l m Hm0)) E (L1 He) (L2 Ho) HI) as (I1 & F).
+        eapply G; [exact H | exact He | apply Inv_bump, I1 | reflexivity | apply clean_mk; discriminate | | reflexivity | simpl; lia].
         eapply allof_member_ok; [exact F | reflexivity | reflexivity].
       - (* Prim *)
-        eapply G; [exact H | exact He | apply Inv_bump, HI | reflexivity | apply clean_mk; discriminate | | simpl; lia].
-        exists 1%nat, ([], []). simpl. auto.
+        eapply G; [exact H | exact He | apply Inv_bump, HI | reflexivity | apply clean_mk; discriminate | | | simpl; lia].
+        { exists 1%nat, ([], []). simpl. auto. }
+        { unfold kind_ok, struct_of. cbn. rewrite str_eqb_refl. reflexivity. }
       - (* EnumN *)
-        eapply G; [exact H | exact He | apply Inv_bump, HI | reflexivity | apply clean_mk; discriminate | | simpl; lia].
-        exists 1%nat, ([], []). simpl. auto.
+        eapply G; [exact H | exact He | apply Inv_bump, HI | reflexivity | apply clean_mk; discriminate | | | simpl; lia].
+        { exists 1%nat, ([], []). simpl. auto. }
+        { unfold kind_ok, struct_of. cbn. rewrite str_eqb_refl. reflexivity. }
+      - (* MapN *)
+        simpl in Hc.
+        destruct (rec None nd s) as [ap s1] eqn:E.
+        match type of H with finish _ _ ?x _ = _ => pose proof (le_finish S (Some n) x (bump s1)) as L end.
+        rewrite H in L. simpl in L. destruct L as (L1 & L2 & _). simpl in L1, L2.
+        assert (CA : core_anon nd = true) by (unfold core_anon; rewrite Hc, orb_true_r; reflexivity).
+        assert (NK : forall k, In k (prop_keys nd) -> ~ In k (map fst (nt S))) by (destruct nd; try discriminate; intros k0 []).
+        pose proof (Hrec None nd s ap s1 E (L1 He) (L2 Ho) HI CA NK) as (I1 & A1).
+        eapply G; [exact H | exact He | apply Inv_bump, I1 | reflexivity | apply clean_mk; discriminate | | | simpl; lia].
+        { exists 1%nat, ([], []). simpl. auto. }
+        { unfold kind_ok, struct_of. cbn. rewrite str_eqb_refl. cbn. f_equal. eapply item_ty; eassumption. }
     Qed.
 
     Lemma step_ok : rec_ok (step md S rec).
@@ -933,9 +1257,9 @@ Section StepProofs.
       assert (B : forall t, events t = [] -> parsed t = parsed s -> nid t = nid s -> cycles t = cycles s ->
                   (let '(r0, s2) := parse_body S rec name nd t in (r0, exit_schema name s2)) = (r, s') ->
                   match name with
-                  | None => core_anon nd = true -> (forall k, In k (prop_keys nd) -> ~ In k (map fst S)) ->
+                  | None => core_anon nd = true -> (forall k, In k (prop_keys nd) -> ~ In k (map fst (nt S))) ->
                             Inv s' /\ anon_ok s s' nd r
-                  | Some n => alookup n S = Some nd -> Inv s' /\ good n r /\ alookup n (parsed s') = Some r
+                  | Some n => alookup n (nt S) = Some nd -> Inv s' /\ good n r /\ alookup n (parsed s') = Some r
                   end).
       { intros t Et Pt Nt Ct Hb. destruct (parse_body S rec name nd t) as [r0 s2] eqn:Eb.
         inversion Hb; subst. destruct (exit_shape name s2) as (P & N & C & Ev & Oo).
@@ -965,7 +1289,8 @@ Section StepProofs.
           * exfalso. destruct (alookup n (parsed (exit_schema (Some n) s1))).
             -- inversion H; subst. discriminate.
             -- eapply Hbody; [|exact H]. discriminate.
-          * intros Hl. destruct (spec_facts S HS _ _ Hl) as (_ & _ & Hne' & _). congruence.
+          * intros Hl. destruct (nt_cases S HS _ _ Hl) as [HlS|(_ & _ & _ & Hne' & _)];
+              [destruct (spec_facts S HS _ _ HlS) as (_ & _ & Hne' & _)|]; congruence.
         + exfalso.
           assert (E1 : events s1 = []).
           { pose proof (le_parse_body S rec Hm None nd (exit_schema None s1)) as L.
@@ -988,24 +1313,11 @@ Section StepProofs.
   End WithRec.
 End StepProofs.
 
-Lemma nodup_alookup : forall {V} (l : list (str * V)) n v,
-  nodup_strs (map fst l) = true -> In (n, v) l -> alookup n l = Some v.
-Proof.
-  induction l as [|[k w] l IH]; intros n v Hn Hin; [contradiction|].
-  simpl in Hn. apply andb_true_iff in Hn. destruct Hn as [Hk Hn]. apply negb_true_iff in Hk.
-  simpl. destruct Hin as [Heq|Hin].
-  - inversion Heq; subst. rewrite str_eqb_refl. reflexivity.
-  - destruct (str_eqb n k) eqn:E.
-    + apply str_eqb_eq in E; subst. exfalso.
-      assert (mem_str k (map fst l) = true) by (apply mem_str_In; apply (in_map fst) in Hin; exact Hin).
-      congruence.
-    + apply IH; assumption.
-Qed.
 
 Section Final.
   Variable md : N.
   Variable S : spec.
-  Hypothesis HS : core_spec S = true.
+  Hypothesis HS : inl_spec S = true.
 
   Lemma parse_schema_ok : forall fuel, rec_ok S (parse_schema md S fuel).
   Proof.
@@ -1025,29 +1337,30 @@ Section Final.
     destruct (parse_schema md S fuel (Some n) nd (set_state n NotStarted s)) as [r s1] eqn:E. simpl in *.
     pose proof (le_build_pass md S fuel l s1) as (L1 & L2 & _).
     assert (HI0 : Inv S (set_state n NotStarted s)) by (apply (Inv_tracker S s); auto).
-    pose proof (parse_schema_ok fuel (Some n) nd _ r s1 E (L1 He) (L2 Ho) HI0 (Hl n nd (or_introl eq_refl))) as (I1 & _).
+    pose proof (parse_schema_ok fuel (Some n) nd _ r s1 E (L1 He) (L2 Ho) HI0 (nt_declared _ _ _ (Hl n nd (or_introl eq_refl)))) as (I1 & _).
     apply IH; assumption.
   Qed.
 
-  Lemma build_iter_ok : forall k fuel s,
-    nodup_strs (map fst S) = true ->
-    Inv S s -> events (build_iter md S k fuel s) = [] -> oof (build_iter md S k fuel s) = false ->
-    Inv S (build_iter md S k fuel s).
+  Lemma build_iter_ok : forall k fuel pend prev s,
+    nodup_strs (map fst S) = true -> (forall x, In x pend -> In x S) ->
+    Inv S s -> events (build_iter md S k fuel pend prev s) = [] -> oof (build_iter md S k fuel pend prev s) = false ->
+    Inv S (build_iter md S k fuel pend prev s).
   Proof.
-    induction k as [|k IH]; intros fuel s ND HI He Ho; cbn [build_iter] in *; [exact HI|].
-    destruct (filter (pending_b s) S) as [|p l] eqn:Ef; [exact HI|].
-    pose proof (le_build_iter md S k fuel (build_pass md S fuel (p :: l) s)) as (L1 & L2 & _).
+    induction k as [|k IH]; intros fuel pend prev s ND Hsub HI He Ho; cbn [build_iter] in *; [exact HI|].
+    destruct (is_nil pend || same_names prev pend); [exact HI|].
+    pose proof (le_build_iter md S k fuel (filter (cutoff_b (build_pass md S fuel pend s)) S) (Some pend)
+                  (build_pass md S fuel pend s)) as (L1 & L2 & _).
     apply IH; try assumption.
-    apply build_pass_ok; auto.
-    intros n nd Hin. apply nodup_alookup; [exact ND|].
-    rewrite <- Ef in Hin. apply filter_In in Hin. apply Hin.
+    - intros x Hx. apply filter_In in Hx. apply Hx.
+    - apply build_pass_ok; auto.
+      intros n nd Hin. apply nodup_alookup; [exact ND | apply Hsub; exact Hin].
   Qed.
 
   Lemma build_ok : forall fuel s,
     nodup_strs (map fst S) = true ->
     Inv S s -> events (build md S fuel s) = [] -> oof (build md S fuel s) = false ->
     Inv S (build md S fuel s).
-  Proof. intros. apply build_iter_ok; assumption. Qed.
+  Proof. intros. apply build_iter_ok; auto. Qed.
 
   Lemma Inv_st0 : Inv S st0.
   Proof. split; [intros k e []|reflexivity]. Qed.
@@ -1058,8 +1371,7 @@ Section Final.
     forall n, In n (map fst S) -> faithful S s n.
   Proof.
     intros s He Ho Hp n Hn.
-    assert (ND : nodup_strs (map fst S) = true).
-    { unfold core_spec in HS. apply andb_true_iff in HS. apply HS. }
+    assert (ND : nodup_strs (map fst S) = true) by (apply (names_nodup S HS)).
     assert (HI : Inv S s).
     { apply build_ok; [exact ND | apply Inv_st0 | exact He | exact Ho]. }
     apply in_map_iff in Hn. destruct Hn as [[n' nd] [Hn' Hin]]. simpl in Hn'. subst n'.
@@ -1068,12 +1380,29 @@ Section Final.
     unfold all_present in Hp. rewrite forallb_forall in Hp. specialize (Hp _ Hin). simpl in Hp.
     rewrite Hcls, orb_diag in Hp. unfold registered in Hp.
     destruct (alookup n (parsed s)) as [e|] eqn:E; [|discriminate].
-    destruct HI as [HI _]. destruct (HI _ _ (alookup_In _ _ _ E)) as [(nd' & Hl' & _ & Hc & (f & m & Hd & H1 & H2)) _].
-    rewrite Hl in Hl'. inversion Hl'; subst nd'.
+    destruct HI as [HI _]. destruct (HI _ _ (alookup_In _ _ _ E)) as [(nd' & Hl' & _ & Hc & (f & m & Hd & H1 & H2) & _) _].
+    rewrite (nt_declared _ _ _ Hl) in Hl'. inversion Hl'; subst nd'.
     exists e. split; [exact E|]. split.
     - destruct Hc as (C1 & C2 & C3 & C4 & _). unfold flags_of. rewrite C1, C2, C3, C4. reflexivity.
     - exists f. unfold declared_f. rewrite Hl, Hd. simpl. f_equal.
       unfold fields_of_member, fields_of. rewrite <- H1, <- H2. unfold fvals. rewrite map_map. reflexivity.
+  Qed.
+
+  (* the schema's own model has the structural kind the document gives it *)
+  Theorem C02_core_kind :
+    let s := parse_doc md S in
+    events s = [] -> oof s = false -> all_present S s = true ->
+    forall n nd, alookup n S = Some nd -> exists e, alookup n (parsed s) = Some e /\ kind_ok nd e.
+  Proof.
+    intros s He Ho Hp n nd Hl.
+    assert (ND : nodup_strs (map fst S) = true) by (apply (names_nodup S HS)).
+    assert (HI : Inv S s) by (apply build_ok; [exact ND | apply Inv_st0 | exact He | exact Ho]).
+    destruct (spec_facts S HS _ _ Hl) as (_ & Hcls & _).
+    unfold all_present in Hp. rewrite forallb_forall in Hp. specialize (Hp _ (alookup_In _ _ _ Hl)). simpl in Hp.
+    rewrite Hcls, orb_diag in Hp. unfold registered in Hp.
+    destruct (alookup n (parsed s)) as [e|] eqn:E; [|discriminate].
+    destruct HI as [HI _]. destruct (HI _ _ (alookup_In _ _ _ E)) as [(nd' & Hl' & _ & _ & _ & Hk) _].
+    rewrite (nt_declared _ _ _ Hl) in Hl'. inversion Hl'; subst nd'. exists e. auto.
   Qed.
 End Final.
 
@@ -1102,7 +1431,7 @@ Proof. vm_compute. repeat split. Qed.
 
 (* contrapositive: on the core fragment a schema can only lose its fidelity when one of the logged branches fired *)
 Lemma loss_only_by_events : forall md S,
-  core_spec S = true ->
+  inl_spec S = true ->
   let s := parse_doc md S in
   oof s = false -> all_present S s = true ->
   forall n, In n (map fst S) -> ~ faithful S s n -> events s <> [].
@@ -1142,6 +1471,28 @@ Section Static.
     specialize (HD _ Hl). simpl in HD. apply N.leb_le in HD. exact HD.
   Qed.
 
+  Lemma HSI : inl_spec S = true.
+  Proof.
+    apply core_inl; [exact HS|]. intros n nd Hin m Hm.
+    unfold ranked_b in HR. rewrite forallb_forall in HR. specialize (HR _ Hin). simpl in HR.
+    rewrite forallb_forall in HR. specialize (HR _ Hm). apply andb_true_iff in HR. destruct HR as [A _].
+    destruct (alookup m S) as [v|] eqn:E; [|discriminate]. apply alookup_In in E. apply (in_map fst) in E. exact E.
+  Qed.
+
+  Lemma spec_facts_core : forall n nd, alookup n S = Some nd ->
+    core_top nd = true /\ cls n = n /\ nonempty n = true
+    /\ (forall k, In k (prop_keys nd) -> ~ In k (map fst (nt S))).
+  Proof.
+    intros n nd H. apply alookup_In in H. pose proof HS as H0. unfold core_spec in H0.
+    apply andb_true_iff in H0. destruct H0 as [HA _].
+    rewrite forallb_forall in HA. specialize (HA _ H). simpl in HA.
+    repeat (apply andb_true_iff in HA; destruct HA as [HA ?]).
+    repeat split; auto.
+    - apply str_eqb_eq; assumption.
+    - intros k Hk Hin. rewrite (core_nt S HS) in Hin. rewrite forallb_forall in H0. specialize (H0 _ Hk).
+      apply negb_true_iff in H0. apply mem_str_In in Hin. congruence.
+  Qed.
+
   Definition TI (s : st) : Prop :=
     (forall m, state_of s m = Completed -> registered m s = true)
     /\ (forall m, match state_of s m with PhCycle | PhDepth | PhSelf => False | _ => True end).
@@ -1164,7 +1515,7 @@ Section Static.
     | None, _ => 1
     end.
 
-  Definition keys_ok (nd : node) : Prop := forall k, In k (prop_keys nd) -> ~ In k (map fst S).
+  Definition keys_ok (nd : node) : Prop := forall k, In k (prop_keys nd) -> ~ In k (map fst (nt S)).
 
   (* F = fuel available to the callee *)
   Definition tr_ok (F : N) (rec : option str -> node -> st -> ir * st) : Prop :=
@@ -1252,7 +1603,7 @@ Section Static.
 
     Lemma props_tr : forall ps parent acc s b out s',
       forallb (fun kv => core_prop (snd kv)) ps = true ->
-      (forall k, In k (map fst ps) -> ~ In k (map fst S)) ->
+      (forall k, In k (map fst ps) -> ~ In k (map fst (nt S))) ->
       (forall kv, In kv ps -> refs_below (snd kv) b) ->
       parse_props S rec ps parent acc s = (out, s') -> (4 * N.of_nat b + 2 <= F)%N ->
       pre s b (4 * N.of_nat b + 2) -> post s s' b None.
@@ -1260,7 +1611,7 @@ Section Static.
       induction ps as [|[key pn] ps IH]; intros parent acc s b out s' Hc Hk Hr H HF P.
       - simpl in H. inversion H; subst. apply post_refl. eapply pre_weaken; [|exact P]. lia.
       - simpl in Hc. apply andb_true_iff in Hc. destruct Hc as [Hc1 Hc2].
-        assert (Hk2 : forall k, In k (map fst ps) -> ~ In k (map fst S)) by (intros k Hin; apply Hk; right; exact Hin).
+        assert (Hk2 : forall k, In k (map fst ps) -> ~ In k (map fst (nt S))) by (intros k Hin; apply Hk; right; exact Hin).
         assert (Hr2 : forall kv, In kv ps -> refs_below (snd kv) b) by (intros kv Hin; apply Hr; right; exact Hin).
         assert (Hr1 : refs_below pn b) by (apply (Hr (key, pn)); left; reflexivity).
         simpl in H.
@@ -1318,7 +1669,8 @@ Section Static.
         destruct (rec None x s) as [i s1] eqn:E1. destruct (parse_list rec l s1) as [is_ s2] eqn:E2.
         inversion H; subst.
         assert (CA : core_anon x = true).
-        { unfold core_anon, core_member in *. destruct x; try discriminate; simpl in *; try reflexivity. exact Hc1. }
+        { unfold core_anon, core_member in *. destruct x; try discriminate; simpl in *; try reflexivity.
+          rewrite ?orb_false_r in Hc1. exact Hc1. }
         assert (SL : (slack None x <= 3)%N) by (destruct x; unfold slack; lia).
         assert (HF1 : (4 * N.of_nat b + slack None x <= F)%N) by lia.
         assert (P1 : pre s b (4 * N.of_nat b + slack None x)) by (eapply pre_weaken; [|exact P]; lia).
@@ -1343,7 +1695,7 @@ Section Static.
       alookup n S = Some nd -> registered n t = false -> cycles t = [] ->
       finish S (Some n) x t = (x, reg n x t).
     Proof.
-      intros n nd x t Hl Hr Hc. destruct (spec_facts S HS _ _ Hl) as (_ & Hcls & Hne & _).
+      intros n nd x t Hl Hr Hc. destruct (spec_facts S HSI _ _ Hl) as (_ & Hcls & Hne & _).
       unfold finish. rewrite Hne. simpl negb. cbv iota.
       unfold registered in Hr. destruct (alookup n (parsed t)) eqn:E; [discriminate|].
       unfold registered. rewrite Hcls, E, Hl. rewrite andb_false_r.
@@ -1384,7 +1736,7 @@ Section Static.
                      /\ match name with Some n => registered n s' = true | None => True end).
       { destruct name as [n|].
         - destruct Side as (Hl & Hrk & Hnr).
-          destruct (spec_facts S HS _ _ Hl) as (Hc & Hcls & Hne & Hk).
+          destruct (spec_facts_core _ _ Hl) as (Hc & Hcls & Hne & Hk).
           assert (Fin : forall x t, post s t b None -> finish S (Some n) x t = (r, s') ->
                     events s' = [] /\ oof s' = false /\ TI s' /\ stack s' = stack s /\ depth s' = depth s
                     /\ (forall k, registered k s = true -> registered k s' = true)
@@ -1420,6 +1772,28 @@ Section Static.
             { eapply items_tr; [exact Hc | exact E2 | lia | | exact Hr].
               apply pre_bump. eapply post_pre; [exact Q1|]. eapply pre_weaken; [|exact P]. lia. }
             eapply Fin; [|exact H]. eapply post_trans; [apply post_bump; exact Q1 | exact Q2].
+          + (* OneOf *)
+            simpl in Hc.
+            destruct (parse_list rec l s) as [ms s1] eqn:E.
+            unfold slack in HF, P.
+            assert (Q : post s s1 b None).
+            { eapply list_tr; [exact (core_items_members _ Hc) | | | exact E | lia | eapply pre_weaken; [|exact P]; lia].
+              - intros x Hx k Hkx. exfalso. exact (core_items_nokeys _ Hc x k Hx Hkx).
+              - intros x Hx m Hmm. apply Hr. clear - Hx Hmm. simpl.
+                induction l as [|y l IH]; [contradiction|]. apply in_or_app.
+                destruct Hx as [->|Hx]; [left; exact Hmm | right; apply IH, Hx]. }
+            eapply Fin; [apply post_bump; exact Q | exact H].
+          + (* AnyOf *)
+            simpl in Hc.
+            destruct (parse_list rec l s) as [ms s1] eqn:E.
+            unfold slack in HF, P.
+            assert (Q : post s s1 b None).
+            { eapply list_tr; [exact (core_items_members _ Hc) | | | exact E | lia | eapply pre_weaken; [|exact P]; lia].
+              - intros x Hx k Hkx. exfalso. exact (core_items_nokeys _ Hc x k Hx Hkx).
+              - intros x Hx m Hmm. apply Hr. clear - Hx Hmm. simpl.
+                induction l as [|y l IH]; [contradiction|]. apply in_or_app.
+                destruct Hx as [->|Hx]; [left; exact Hmm | right; apply IH, Hx]. }
+            eapply Fin; [apply post_bump; exact Q | exact H].
           + (* AllOf *)
             simpl in Hc.
             destruct (parse_list rec l s) as [ms s1] eqn:E.
@@ -1437,6 +1811,18 @@ Section Static.
             eapply Fin; [|exact H]. apply post_bump, post_refl. eapply pre_weaken; [|exact P]. lia.
           + (* EnumN *)
             eapply Fin; [|exact H]. apply post_bump, post_refl. eapply pre_weaken; [|exact P]. lia.
+          + (* MapN *)
+            simpl in Hc.
+            destruct (rec None nd s) as [ap s1] eqn:E.
+            unfold slack in HF, P.
+            assert (SL : slack None nd = 1%N) by (destruct nd; try discriminate; reflexivity).
+            assert (Q : post s s1 b None).
+            { apply (Htr None nd s b ap s1 E); rewrite ?SL.
+              - lia.
+              - eapply pre_weaken; [|exact P]. lia.
+              - intros m Hmm. apply Hr. exact Hmm.
+              - split; [unfold core_anon; rewrite Hc, orb_true_r; reflexivity | destruct nd; try discriminate; intros k0 []]. }
+            eapply Fin; [apply post_bump; exact Q | exact H].
         - destruct Side as (Hc & Hk).
           assert (Out : forall t, post s t b None -> s' = t ->
                     events s' = [] /\ oof s' = false /\ TI s' /\ stack s' = stack s /\ depth s' = depth s
@@ -1477,7 +1863,7 @@ Section Static.
       destruct P as (A0 & O0 & B0 & C0 & D0 & E0).
       assert (I' : Inv S s').
       { destruct name as [n|].
-        - destruct Side as (Hl & _). eapply (body_named S HS rec Hrec Hm); eauto.
+        - destruct Side as (Hl & _). eapply (body_named S HSI rec Hrec Hm); eauto using nt_declared.
         - destruct Side as (Hc & Hk). eapply (body_anon S rec Hrec Hm); eauto. }
       split; [|exact R]. unfold post. auto 10.
     Qed.
@@ -1521,7 +1907,7 @@ Section Static.
       assert (SL : (1 <= slack name nd)%N) by (unfold slack; destruct name; [lia | destruct nd; lia]).
       destruct name as [n|].
       - destruct Side as (Hl & Hrk & Hnr & Hns).
-        destruct (spec_facts S HS _ _ Hl) as (_ & _ & Hne & _).
+        destruct (spec_facts S HSI _ _ Hl) as (_ & _ & Hne & _).
         set (s1 := w_stack (stack s ++ [n]) (set_state n InProgress (w_depth (depth s + 1) s))).
         assert (En : enter md (Some n) s = (AContinue, None, s1)).
         { unfold enter, cycle_check.
@@ -1616,7 +2002,7 @@ Section Static.
     induction f as [|f IH].
     - intros name nd s b r s' _ HF. exfalso. unfold slack in HF. destruct name; [lia | destruct nd; lia].
     - rewrite Nat2N.inj_succ, <- N.add_1_r. simpl parse_schema.
-      apply step_tr; [apply parse_schema_ok; exact HS | apply mono_parse_schema | exact IH].
+      apply step_tr; [apply parse_schema_ok; exact HSI | apply mono_parse_schema | exact IH].
   Qed.
 
   Definition rest (s : st) : Prop :=
@@ -1639,7 +2025,7 @@ Section Static.
     - split; [exact R|]. split; [auto|]. intros n nd [].
     - assert (Hl' : forall n0 nd0, In (n0, nd0) l -> alookup n0 S = Some nd0) by (intros; apply Hl; right; assumption).
       pose proof (Hl n nd (or_introl eq_refl)) as Hn.
-      destruct (spec_facts S HS _ _ Hn) as (_ & Hcls & _).
+      destruct (spec_facts S HSI _ _ Hn) as (_ & Hcls & _).
       destruct R as (A & O & B & C & D & E0).
       rewrite Hcls, andb_diag, (unparsed_clean n s C).
       destruct (registered n s) eqn:Ern; simpl negb; cbv iota.
@@ -1666,7 +2052,7 @@ Section Static.
         { repeat split; auto. change (stack s0) with (stack s). rewrite D. intros []. }
         pose proof (parse_schema_tr (fuel_for md) (Some n) nd s0 (rk n) r s1 E HF P (ranked n nd Hn) Side)
           as (A1 & O1 & B1 & C1 & D1 & E1 & G1 & K1).
-        pose proof (parse_schema_ok md S HS (fuel_for md) (Some n) nd s0 r s1 E A1 O1 C0 Hn) as (_ & _ & Hreg).
+        pose proof (parse_schema_ok md S HSI (fuel_for md) (Some n) nd s0 r s1 E A1 O1 C0 (nt_declared _ _ _ Hn)) as (_ & _ & Hreg).
         assert (R1 : rest s1).
         { unfold rest. split; [exact A1|]. split; [exact O1|]. split; [exact B1|]. split; [exact C1|].
           split; [rewrite D1; exact D | rewrite E1; exact E0]. }
@@ -1701,19 +2087,22 @@ Section Static.
     events s = [] /\ oof s = false /\ all_present S s = true.
   Proof.
     assert (ND : nodup_strs (map fst S) = true) by (unfold core_spec in HS; apply andb_true_iff in HS; apply HS).
-    unfold parse_doc, build.
-    destruct (length S) as [|k] eqn:EL.
-    { destruct S; [|discriminate]. simpl. auto. }
-    cbn [build_iter].
-    assert (FA : filter (pending_b st0) S = S) by (apply filter_all; intros [n nd] _; reflexivity).
-    rewrite FA. destruct S as [|p0 l0] eqn:ES; [discriminate|]. rewrite <- ES in *.
+    unfold parse_doc, build. rewrite Nat.add_1_r. cbn [build_iter].
+    destruct S as [|p0 l0] eqn:ES; [simpl; auto|]. rewrite <- ES in *.
+    assert (NN : is_nil S || same_names None S = false) by (rewrite ES; reflexivity).
+    rewrite NN.
     destruct (build_pass_tr S st0 (fun n nd Hin => nodup_alookup S n nd ND Hin) rest_st0) as (R1 & _ & Al).
     set (s1 := build_pass md S (fuel_for md) S st0) in *.
-    assert (Stop : forall k', build_iter md S k' (fuel_for md) s1 = s1).
-    { intros [|k']; [reflexivity|]. cbn [build_iter].
-      rewrite (filter_none (pending_b s1) S); [reflexivity|].
-      intros [n nd] Hin. unfold pending_b. simpl fst.
-      destruct R1 as (_ & _ & _ & C1 & _). rewrite (unparsed_clean n s1 C1), (Al n nd Hin). reflexivity. }
+    assert (FN : filter (cutoff_b s1) S = []).
+    { apply filter_none. intros [n nd] _. unfold cutoff_b, cut_off. simpl fst.
+      destruct R1 as (_ & _ & _ & [C1 _] & _).
+      assert (X : forall k, match alookup k (parsed s1) with Some e => i_depthm e | None => false end = false).
+      { intros k. destruct (alookup k (parsed s1)) as [e|] eqn:E; [|reflexivity].
+        destruct (C1 _ _ (alookup_In _ _ _ E)) as [(? & _ & _ & (_ & _ & Dm & _) & _) _]. exact Dm. }
+      rewrite !X. reflexivity. }
+    rewrite FN.
+    assert (Stop : build_iter md S (length S) (fuel_for md) [] (Some S) s1 = s1).
+    { rewrite ES. reflexivity. }
     rewrite Stop. destruct R1 as (A & O & _).
     split; [exact A|]. split; [exact O|].
     unfold all_present. apply forallb_forall. intros [n nd] Hin. simpl.
@@ -1722,7 +2111,13 @@ Section Static.
 
   Theorem C02_acyclic : forall n, In n (map fst S) -> faithful S (parse_doc md S) n.
   Proof.
-    destruct acyclic_clean as (A & O & P). intros n Hn. apply (C02_core md S HS A O P n Hn).
+    destruct acyclic_clean as (A & O & P). intros n Hn. apply (C02_core md S HSI A O P n Hn).
+  Qed.
+
+  Theorem C02_acyclic_kind : forall n nd, alookup n S = Some nd ->
+    exists e, alookup n (parsed (parse_doc md S)) = Some e /\ kind_ok nd e.
+  Proof.
+    destruct acyclic_clean as (A & O & P). intros n nd Hl. apply (C02_core_kind md S HSI A O P n nd Hl).
   Qed.
 End Static.
 
@@ -1769,4 +2164,120 @@ Example alias_regression :
   /\ faithful_b (rev spec_alias) (parse_doc default_max_depth (rev spec_alias)) sAliasTwo = true
   /\ model_fields (parse_doc default_max_depth spec_alias) sAliasTwo
      = Some [(sident, true, TPrim PInteger); (slabel, false, TPrim PString)].
+Proof. vm_compute. repeat split. Qed.
+
+(* ================================================================== order independence (what C19 needs) ============ *)
+Lemma perm_alookup : forall (S S' : spec),
+  nodup_strs (map fst S) = true -> nodup_strs (map fst S') = true -> Permutation S S' ->
+  forall n, alookup n S = alookup n S'.
+Proof.
+  intros S S' ND ND' P n.
+  destruct (alookup n S) as [v|] eqn:E.
+  - apply alookup_In in E. apply (Permutation_in _ P) in E.
+    symmetry. apply nodup_alookup; assumption.
+  - destruct (alookup n S') as [v'|] eqn:E'; [|reflexivity].
+    apply alookup_In in E'. apply (Permutation_in _ (Permutation_sym P)) in E'.
+    rewrite (nodup_alookup _ _ _ ND E') in E. discriminate.
+Qed.
+
+Lemma decl_members_ext : forall (r1 r2 : node -> option dmember),
+  (forall x, r1 x = r2 x) -> forall l acc, decl_members r1 l acc = decl_members r2 l acc.
+Proof.
+  intros r1 r2 H. induction l as [|x l IH]; intros acc; simpl; [reflexivity|].
+  rewrite H. destruct (r2 x); [apply IH | reflexivity].
+Qed.
+
+Lemma decl_node_ext : forall (S S' : spec), (forall n, alookup n S = alookup n S') ->
+  forall f pn nd, decl_node f S pn nd = decl_node f S' pn nd.
+Proof.
+  intros S S' H. induction f as [|f IH]; intros pn nd; [reflexivity|].
+  destruct nd; try reflexivity.
+  - simpl. rewrite H. destruct (alookup n S'); [apply IH | reflexivity].
+  - change (decl_members (decl_node f S None) l [] = decl_members (decl_node f S' None) l []).
+    apply decl_members_ext. intros x. apply IH.
+Qed.
+
+Lemma declared_f_ext : forall (S S' : spec), (forall n, alookup n S = alookup n S') ->
+  forall f n, declared_f f S n = declared_f f S' n.
+Proof.
+  intros S S' H f n. unfold declared_f. rewrite H. destruct (alookup n S'); [|reflexivity].
+  rewrite (decl_node_ext S S' H). reflexivity.
+Qed.
+
+Lemma core_nodup : forall S, core_spec S = true -> nodup_strs (map fst S) = true.
+Proof. intros S H. unfold core_spec in H. apply andb_true_iff in H. apply H. Qed.
+
+(* on a clean run every registry key is a declared name *)
+Lemma registry_keys_declared : forall md S,
+  core_spec S = true -> inl_spec S = true ->
+  events (parse_doc md S) = [] -> oof (parse_doc md S) = false ->
+  forall n e, alookup n (parsed (parse_doc md S)) = Some e -> In n (map fst S).
+Proof.
+  intros md S HS HSI0 He Ho n e Hl.
+  assert (HI : Inv S (parse_doc md S)).
+  { unfold parse_doc. apply build_ok; [exact HSI0 | apply core_nodup; exact HS | apply Inv_st0 | exact He | exact Ho]. }
+  destruct HI as [HI _]. destruct (HI _ _ (alookup_In _ _ _ Hl)) as [(nd & Hnd & _) _].
+  rewrite (core_nt S HS) in Hnd. apply alookup_In in Hnd. apply (in_map fst) in Hnd. exact Hnd.
+Qed.
+
+(* the models do not depend on the order in which the schemas are declared *)
+Theorem order_independent : forall md S S' rk rk',
+  core_spec S = true -> ranked_b rk S = true -> depth_ok rk S md = true ->
+  core_spec S' = true -> ranked_b rk' S' = true -> depth_ok rk' S' md = true ->
+  Permutation S S' ->
+  forall n, model_fields (parse_doc md S) n = model_fields (parse_doc md S') n.
+Proof.
+  intros md S S' rk rk' HS HR HD HS' HR' HD' P n.
+  pose proof (perm_alookup S S' (core_nodup S HS) (core_nodup S' HS') P) as EQ.
+  destruct (acyclic_clean md S rk HS HR HD) as (He & Ho & _).
+  destruct (acyclic_clean md S' rk' HS' HR' HD') as (He' & Ho' & _).
+  destruct (mem_str n (map fst S)) eqn:M.
+  - apply mem_str_In in M.
+    assert (M' : In n (map fst S')) by (apply (Permutation_in _ (Permutation_map fst P)); exact M).
+    destruct (C02_acyclic md S rk HS HR HD n M) as (e & El & _ & f & Hf).
+    destruct (C02_acyclic md S' rk' HS' HR' HD' n M') as (e' & El' & _ & f' & Hf').
+    unfold model_fields. rewrite El, El'. f_equal.
+    rewrite <- (declared_f_ext S S' EQ) in Hf'.
+    exact (declared_f_functional _ _ _ _ _ _ Hf Hf').
+  - unfold model_fields.
+    destruct (alookup n (parsed (parse_doc md S))) as [e|] eqn:El.
+    { apply (registry_keys_declared md S HS (HSI S rk HS HR) He Ho) in El. apply mem_str_In in El. congruence. }
+    destruct (alookup n (parsed (parse_doc md S'))) as [e'|] eqn:El'; [|reflexivity].
+    apply (registry_keys_declared md S' HS' (HSI S' rk' HS' HR') He' Ho') in El'.
+    apply (Permutation_in _ (Permutation_map fst (Permutation_sym P))) in El'.
+    apply mem_str_In in El'. congruence.
+Qed.
+
+(* non-vacuity of the widened fragment: top-level map, top-level unions, allOf with a primitive member *)
+Definition sIndex : str := [73;110;100;101;120].
+Definition sEither : str := [69;105;116;104;101;114].
+Definition sMixed : str := [77;105;120;101;100].
+Definition spec_wide : spec :=
+  [(sIndex, MapN (Ref sBase));
+   (sEither, OneOf [Ref sBase; Prim PString; EnumN]);
+   (sMixed, AllOf [Ref sBase; Prim PString; Obj [(snote, Arr EnumN)] [snote; slabel]]);
+   (sAccount, AnyOf [Ref sEither; Ref sIndex]);
+   (sBase, Obj [(sident, Prim PInteger); (slabel, Prim PString)] [sident])].
+Definition rk_wide : list (str * nat) :=
+  [(sAccount, 2%nat); (sIndex, 1%nat); (sEither, 1%nat); (sMixed, 1%nat); (sBase, O)].
+Example wide_guard_nonvacuous :
+  (core_spec spec_wide = true /\ ranked_b rk_wide spec_wide = true /\ depth_ok rk_wide spec_wide default_max_depth = true)
+  /\ model_fields (parse_doc default_max_depth spec_wide) sMixed
+     = Some [(sident, true, TPrim PInteger); (slabel, true, TPrim PString); (snote, true, TList TEnum)]
+  /\ model_fields (parse_doc default_max_depth spec_wide) sIndex = Some [].
+Proof. vm_compute. repeat split. Qed.
+
+(* non-vacuity of [inl_spec] with an inline object property (promoted to UserGroup) *)
+Definition spec_inl : spec :=
+  [(sUser, Obj [(sgroup, Obj [(sxx, Prim PString); (sowner, Ref sAccount)] [sxx]); (sname, Prim PString)] [sgroup]);
+   (sAccount, Obj [(sname, Prim PString)] [])].
+Example inl_guard_nonvacuous :
+  inl_spec spec_inl = true /\ core_spec spec_inl = false
+  /\ events (parse_doc default_max_depth spec_inl) = [] /\ oof (parse_doc default_max_depth spec_inl) = false
+  /\ all_present spec_inl (parse_doc default_max_depth spec_inl) = true
+  /\ faithful_b spec_inl (parse_doc default_max_depth spec_inl) sUser = true
+  /\ model_fields (parse_doc default_max_depth spec_inl) sUser
+     = Some [(sgroup, true, TRef sUserGroup); (sname, false, TPrim PString)]
+  /\ model_fields (parse_doc default_max_depth spec_inl) sUserGroup
+     = Some [(sxx, true, TPrim PString); (sowner, false, TRef sAccount)].
 Proof. vm_compute. repeat split. Qed.
